@@ -515,3 +515,8 @@ def run(ctx):
     r4(ctx, fs)
     r5(ctx, fs)
     r6(ctx, fs)
+    # R7: the agenda survives back-tracking (shared with C08.R6): an active flaw is never lost from `flaws`, so solve() cannot stop while an active atom lacks its justification
+    from .C08 import agenda_restore, r6 as agenda_log
+    ctx.rule('C03.R7', 'solver::propagate logs every change of the agenda in the trail layer and solver::pop replays it unconditionally: every flaw solved at the popped level is open again, '
+                       'every flaw created there is removed, one layer is dropped', floor=3)
+    agenda_restore(ctx, fs, rid='C03.R7')
